@@ -74,29 +74,73 @@ pub fn m_replay_unit_calc() {}
 
 /// format_number natively against a reference written from the property: digits of format!("{:.N}") (rounding on)
 /// or format!("{}") (rounding off), integer part grouped in threes, fraction dropped iff removal is on and all of
-/// its printed digits are '0'. The solver's real x is tried together with its four nearest doubles.
+/// its printed digits are '0'. The solver's real x is tried together with its four nearest doubles, under two
+/// separator settings.
 #[cfg(not(kani))]
 pub fn m_replay_format_number() {
     let x0: f64 = vany(); let n: u8 = vany(); let remove: u8 = vany(); let rounding: u8 = vany();
     vassume(x0.is_finite() && n <= 60);
     let deltas: [i64; 5] = [0, 1, -1, 2, -2];
-    for d in deltas.iter() {
-        let x = f64::from_bits((x0.to_bits() as i64 + d) as u64);
-        if !x.is_finite() { continue; }
-        let got = crate::formatter::format_number(x, ",".to_string(), ".".to_string(), n, remove == 1, rounding == 1);
-        let text = if rounding == 1 { alloc::format!("{:.*}", n as usize, x.abs()) } else { alloc::format!("{}", x.abs()) };
-        let (int_part, fract) = match text.find('.') { Some(i) => (&text[..i], &text[i + 1..]), None => (&text[..], "") };
-        let mut want = String::new();
-        if x < 0.0 { want.push('-'); }
-        let len = int_part.len();
-        for (i, ch) in int_part.chars().enumerate() {
-            want.push(ch);
-            if i + 1 != len && (len - 1 - i) % 3 == 0 { want.push(','); }
+    let seps = [(",", "."), ("_", "~~")];
+    for (ts, ds) in seps.iter() {
+        for d in deltas.iter() {
+            let x = f64::from_bits((x0.to_bits() as i64 + d) as u64);
+            if !x.is_finite() { continue; }
+            let got = crate::formatter::format_number(x, ts.to_string(), ds.to_string(), n, remove == 1, rounding == 1);
+            let text = if rounding == 1 { alloc::format!("{:.*}", n as usize, x.abs()) } else { alloc::format!("{}", x.abs()) };
+            let (int_part, fract) = match text.find('.') { Some(i) => (&text[..i], &text[i + 1..]), None => (&text[..], "") };
+            let mut want = String::new();
+            if x < 0.0 { want.push('-'); }
+            let len = int_part.len();
+            for (i, ch) in int_part.chars().enumerate() {
+                want.push(ch);
+                if i + 1 != len && (len - 1 - i) % 3 == 0 { want.push_str(ts); }
+            }
+            let all_zero = fract.chars().all(|c| c == '0');
+            if !fract.is_empty() && !(remove == 1 && all_zero) { want.push_str(ds); want.push_str(fract); }
+            assert!(got == want);
         }
-        let all_zero = fract.chars().all(|c| c == '0');
-        if !fract.is_empty() && !(remove == 1 && all_zero) { want.push('.'); want.push_str(fract); }
-        assert!(got == want);
     }
 }
 #[cfg(kani)]
 pub fn m_replay_format_number() {}
+
+/// print of the four number-like items natively: the text must be format_number(own value, configured separators,
+/// own digit / removal / rounding settings) composed as the property says; non-default, pairwise different settings
+#[cfg(not(kani))]
+pub fn m_replay_print_callers() {
+    use crate::compiler::money::MoneyItem;
+    use crate::compiler::number::NumberItem;
+    use crate::compiler::percent::PercentItem;
+    use crate::formatter::format_number;
+    let x: f64 = vany();
+    vassume(x.is_finite());
+    let grids: [(u8, bool, bool, u8, bool, bool, bool, bool); 2] = [(3, false, true, 1, true, true, false, true), (0, true, true, 4, false, true, true, true)];
+    for g in grids.iter() {
+        let mut calc = crate::SmartCalc::default();
+        calc.set_decimal_seperator("~".to_string());
+        calc.set_thousand_separator("_".to_string());
+        calc.set_number_configuration(g.0, g.1, g.2);
+        calc.set_percentage_configuration(g.3, g.4, g.5);
+        calc.set_money_configuration(g.6, g.7);
+        let cfg = crate::smartcalc::verif_k_local::config_of(&calc);
+        let session = crate::session::Session::default();
+        let fmt = |d: u8, rm: bool, ur: bool| format_number(x, "_".to_string(), "~".to_string(), d, rm, ur);
+        assert!(NumberItem(x, crate::types::NumberType::Decimal).print(cfg, &session) == fmt(g.0, g.1, g.2));
+        assert!(PercentItem(x).print(cfg, &session) == alloc::format!("%{}", fmt(g.3, g.4, g.5)));
+        for (_, cur) in cfg.currency.iter() {
+            let f = fmt(cur.decimal_digits, g.6, g.7);
+            let blank = if cur.space_between_amount_and_symbol { " " } else { "" };
+            let want = if cur.symbol_on_left { alloc::format!("{}{}{}", cur.symbol, blank, f) } else { alloc::format!("{}{}{}", f, blank, cur.symbol) };
+            assert!(MoneyItem(x, cur.clone()).print(cfg, &session) == want);
+        }
+        let opts: [(Option<u8>, Option<bool>, Option<bool>); 4] = [(None, None, None), (Some(4), Some(false), Some(true)), (Some(0), None, Some(true)), (None, Some(false), None)];
+        for o in opts.iter() {
+            let dt = Rc::new(crate::config::DynamicType::new("fam".to_string(), 1, "<{value}> u {value}".to_string(), Vec::new(), "{value}".to_string(), "{value}".to_string(), alloc::vec!["u".to_string()], o.0, o.2, o.1));
+            let f = fmt(o.0.unwrap_or(2), o.1.unwrap_or(true), o.2.unwrap_or(true));
+            assert!(DynamicTypeItem(x, dt).print(cfg, &session) == alloc::format!("<{}> u {}", f, f));
+        }
+    }
+}
+#[cfg(kani)]
+pub fn m_replay_print_callers() {}
